@@ -1,7 +1,7 @@
 (* C01 — every client gets the response to its own request, never another's.
    Statements only.  Model: Server/ProxyCore.v (proxy) composed with
    Agent/System.v (agent workers + arbitrary backend). *)
-From Coq Require Import ZArith List Bool Lia.
+From Coq Require Import ZArith List Bool Lia String.
 From IP Require Import Gen.SrcFacts_Server Gen.SrcFacts_Agent Server.ProxyCore Proofs.ProxyCoreProofs Agent.System Proofs.SystemProofs.
 Import ListNotations.
 Open Scope Z_scope.
@@ -11,6 +11,14 @@ Open Scope Z_scope.
 Theorem C01_channels_unbuffered : proxyRequestIDsChanCap = [0] /\ pendingRespChanCap = [0].
 Proof. split; reflexivity. Qed.
 Print Assumptions C01_channels_unbuffered.
+
+(* the ID under which a frontend request is entered into the pending table and handed to the agent is
+   the proxy's own draw (newID), never a value taken from the request: the hypothesis inj_upto of the
+   theorems below is about the proxy's generator alone *)
+Theorem C01_id_is_proxy_drawn :
+  frontendIDSources = ["p.newID()"%string] /\ frontendTableKeys = ["id"%string] /\ frontendEnqueued = ["id"%string].
+Proof. repeat split; reflexivity. Qed.
+Print Assumptions C01_id_is_proxy_drawn.
 
 (* Proxy: for every schedule of arrivals, hand-offs, fetches, posts (also
    duplicate posts, posts for unknown IDs) and cancellations, with pairwise
